@@ -500,7 +500,7 @@ def unix(sym, cov, mode, eager=False, T=1):
 
 def units(tier):
     quick = tier == "quick"
-    B_ = 100 if quick else 1500
+    B_ = 240 if quick else 1500
     us = []
     us.append({"name": "tcp recv", "fn": tcp, "params": {"mode": "recv"}, "budget_s": B_})
     us.append({"name": "tcp recv busy", "fn": tcp, "params": {"mode": "recv", "busy": True, "T": 0}, "budget_s": B_})
